@@ -2113,6 +2113,10 @@ class Client:
                 return self._loop_rc_handle(rc)
             elif rc == MQTTErrorCode.MQTT_ERR_AGAIN:
                 return MQTTErrorCode.MQTT_ERR_SUCCESS
+        if self._sock is None:
+            # the last packet handled closed the connection (server DISCONNECT): report
+            # it the same way as when the loop comes round once more
+            return MQTTErrorCode.MQTT_ERR_NO_CONN
         return MQTTErrorCode.MQTT_ERR_SUCCESS
 
     def loop_write(self) -> MQTTErrorCode:
